@@ -72,13 +72,14 @@ theorem C10_view_iff {π} (fs : FS π) (p : π) (b : Bytes) : view fs p = some b
   unfold view readRegularFile statIsRegular osReadFile
   cases hk : fs p <;> simp [Kind.isRegular]
 
+set_option linter.unusedSimpArgs false in
 /-- A FIFO, a device and a directory are indistinguishable from a missing file for every entry point that reads through
 readRegularFile: the reader of a file system equals the reader of the same file system with those paths removed. -/
 theorem C10_view_nonregular_as_missing {π} (fs : FS π) :
     view fs = view (fun p => if (fs p).isRegular then fs p else .missing) := by
   funext p
-  unfold view readRegularFile statIsRegular osReadFile
-  cases hk : fs p <;> simp [Kind.isRegular]
+  simp only [view, readRegularFile, statIsRegular, osReadFile]
+  cases hk : fs p <;> simp [hk, Kind.isRegular]
 
 /-! ## the entry points on an arbitrary kind-level file system
 
